@@ -111,12 +111,29 @@ def run_timed(cmd, env, timeout):
         out, err = p.communicate(timeout=timeout)
         return p.returncode, out, err
     except subprocess.TimeoutExpired:
+        cpu = _cpu_seconds(p.pid)
         try:
             os.killpg(p.pid, 9)  # the engine's own session only
         except OSError:
             pass
         out, err = p.communicate()
-        return 124, out or "", (err or "") + "\nTIMEOUT after %ds" % timeout
+        if cpu >= max(120.0, 0.5 * timeout):
+            # it was not waiting for anything: it computed for minutes where seconds are normal
+            SPINS.append((os.path.basename(cmd[0]), cpu, timeout))
+        return 124, out or "", (err or "") + "\nTIMEOUT after %ds (%.0f s of CPU time used)" % (timeout, cpu)
+
+
+SPINS = []   # engine processes killed at their wall-clock limit after burning CPU most of that time
+
+
+def _cpu_seconds(pid):
+    """utime + stime of a process (all its threads), from /proc; 0 if it is gone."""
+    try:
+        f = open("/proc/%d/stat" % pid).read()
+        rest = f[f.rindex(")") + 2:].split()
+        return (int(rest[11]) + int(rest[12])) / float(os.sysconf("SC_CLK_TCK"))
+    except (OSError, ValueError, IndexError):
+        return 0.0
 
 
 class Violation:
@@ -287,6 +304,12 @@ def conclude(prop, tier, seed, level, total, viols, t0, rule, min_obs=None, extr
     """Fold results, write evidence + replays, print verdict lines, return exit code."""
     known = load_known()
     by_key = {}
+    viols = list(viols)
+    for name, cpu, limit in SPINS:
+        viols.append((prop, "%s/cpu-spin:engine:%s" % (prop, name),
+                      "an engine process (%s) was killed at its %d s limit after %.0f s of CPU time: the code under test spins" % (name, limit, cpu),
+                      {"seed": seed, "module": name}, []))
+    del SPINS[:]
     for (p, key, msg, case, log) in viols:
         if p != prop:
             continue
